@@ -31,6 +31,7 @@ var families = map[string]famDef{
 	"flush":     {"C03", famFlush, exactRunner},
 	"versions":  {"C02", famVersions, exactRunner},
 	"faults":    {"C12", famFaults, Runner{}},
+	"conc":      {"C11", famConc, Runner{}},
 	"filecrash": {"C17", famFileCrash, Runner{}},
 	"diffcost":  {"C15", famDiffCost, exactRunner},
 }
@@ -49,8 +50,13 @@ func main() {
 	corpus := flag.String("corpus", "", "directory of corpus cases (*.json) replayed first")
 	replay := flag.String("replay", "", "replay one case file and print the outcome")
 	list := flag.Bool("list", false, "list families")
+	facts := flag.String("facts", "", "check a group of source facts against the committed expectations")
+	updateFacts := flag.Bool("update-facts", false, "with -facts: rewrite the expectations from the current sources")
 	genvec := flag.String("genvectors", "", "write frozen format vectors to this file (run against the pinned release)")
 	flag.Parse()
+	if *facts != "" {
+		os.Exit(runFacts(*facts, *updateFacts))
+	}
 	if *genvec != "" {
 		writeVectors(*genvec, 20260929)
 		return
